@@ -6,8 +6,10 @@
   Hamiltonian (beyond rounding). For small gapped systems it matches that ground energy to within
   the solver's energy tolerance. The state returned is normalised and in canonical form.
 
-  What is proved here (all for the code as it is NOW: `sweep_count` is reset when a step
-  converges, `previous_energy` is not):
+  What is proved here. The model carries the variant switch `Cfg.resetPrev`; the CURRENT tree
+  (/repo ≥ 3bcd9a6: `sweep_count = 0` and `previous_energy = None` when a step converges) is the
+  repaired variant `resetPrev = true`, for which `repaired_every_step_compares_its_own_sweeps`
+  applies; `resetPrev = false` is the code as found before that commit:
 
   (i) Variational bound, abstractly (`variational_bound`, `variational_bound_unit`): for a
       symmetric operator `H` on a finite-dimensional complex inner-product space the Rayleigh
@@ -44,11 +46,11 @@
 
   (iii) "matches the ground energy within the tolerance for small gapped systems" is NOT a
       theorem and is false for the code: `MatchesGroundEnergy` is kept as a `def … : Prop`.
-      Two-site DMRG can converge to an excited eigenstate (KNOWN-FINDING C09-local-minimum), and
-      because `previous_energy` survives a completed step, the first sweep of a later step is
+      Two-site DMRG can converge to an excited eigenstate (KNOWN-FINDING D23), and in the as-found
+      variant, because `previous_energy` survives a completed step, the first sweep of a later step is
       compared with an energy of the *previous* step (`first_sweep_compared_with_previous_step`,
-      `stale_previous_energy_counterexample`; KNOWN-FINDING D19b shows the real solver accepting
-      an energy 0.4 rad/µs above the ground energy that way). The model carries the variant switch
+      `stale_previous_energy_counterexample`; finding D19b, fixed in 3bcd9a6, showed the real
+      solver accepting an energy 0.4 rad/µs above the ground energy that way). The model carries the variant switch
       `Cfg.resetPrev`: for the repaired variant `repaired_every_step_compares_its_own_sweeps`
       holds; the harness decides on every run which variant the code matches. PARTIAL.
 -/
